@@ -91,6 +91,22 @@ class C13(Check):
         scn["second_app"] = rng2.choice([None, None, "before", "after"])
         # re-entrancy: a handler that itself sends a request through the application object and waits for its
         # answer before it answers the request it was called for
+        if index % 16 == 13 and routes:
+            # volume: hundreds of requests through the same application object (per-message thread names and
+            # counters, barriers tripping many times over, tables that are never trimmed)
+            nvol = rng2.choice([150, 300, 500])
+            del reqs[:]
+            t = 0.0
+            for i in range(nvol):
+                ai, code = rng2.choice(routes)
+                t += rng2.choice([0.0, 0.0005, 0.002])
+                reqs.append({"app": ai, "code": code, "registered": True, "t": t,
+                             "outcome": rng2.choice(["generic", "generic", "generic", "typed", "raise_value", "none"]),
+                             "slow": 0.002, "dhost": rng2.random() < 0.5})
+            scn["max_steps"] = 16_000_000
+            scn["horizon"] = 120.0
+            scn["early_send"] = False
+            knobs["BROMELIA_TICKER"] = max(knobs["BROMELIA_TICKER"], 0.0005)
         for r in reqs:
             if r["registered"] and r["outcome"] in ("generic", "typed") and rng2.random() < 0.2:
                 r["outcome"] = "nested"
